@@ -540,13 +540,13 @@ func (x *Exec) doAppend(s *State, dst *SliceVal, src Value, rt types.Type) (Valu
 		// write elements at dst.Len + j under (fits && j < n)
 		for j, e := range elems {
 			idx := tb.Add(dst.Len, tb.Int64(int64(j)))
-			p := x.offsetPtr(s, dst.Ptr, idx, int(min64(dst.Cap.Hi, 1<<16)))
+			p := x.offsetPtr(s, dst.Ptr, idx, int(min64(dst.Cap.Hi, 1<<20)))
 			x.storeCond(s, p, e, tb.And(fits, tb.ULt(tb.Int64(int64(j)), n)))
 		}
 		inPlace = &SliceVal{Ptr: dst.Ptr, Len: newLen, Cap: dst.Cap}
 	}
 	if !fits.IsTrue() {
-		if newLen.Hi > 1<<16 {
+		if newLen.Hi > 1<<20 {
 			x.fail("append: unbounded symbolic length")
 		}
 		ncap := int(newLen.Hi)
@@ -574,7 +574,7 @@ func (x *Exec) doAppend(s *State, dst *SliceVal, src Value, rt types.Type) (Valu
 		// new elements at symbolic offset dst.Len
 		for j, e := range elems {
 			inN := tb.ULt(tb.Int64(int64(j)), n)
-			for p := int(dst.Len.Lo) + j; p <= int(min64(dst.Len.Hi, 1<<16))+j && p < ncap; p++ {
+			for p := int(dst.Len.Lo) + j; p <= int(min64(dst.Len.Hi, 1<<20))+j && p < ncap; p++ {
 				c := tb.And(inN, tb.Eq(dst.Len, tb.Int64(int64(p-j))))
 				arr.E[p] = x.ite(c, e, arr.E[p])
 			}
